@@ -123,4 +123,67 @@ PROPS = {
         "modelled": ["modelled, not verified: wall-clock bounds (an 8 s watchdog tells blocked from slow)"],
         "assumptions": ["as C09"],
     },
+    "C03": {
+        "rule": "K in {1,2,3,4,5,8,16,64} requests of 6 types on K fids, all parked in the implementation (or answering from another "
+                "goroutine), released in a random permutation (every permutation of up to 5 over the seeds), 1/5 answered twice, "
+                "Maxpend in {0,1,8,64}, 1..3 rounds per connection (reply buffers recycled), random yields/sleeps at the library's "
+                "schedule points; rolling windows that reuse a tag the moment its reply arrives while the answered request is held "
+                "between queueing and unlinking. Oracle on the decoded wire: one frame per request with its tag, matching type or "
+                "Rerror, content equal to what the implementation produced, no other frame. non-trivial = distinct scenarios",
+        "modelled": ["modelled, not verified: goroutines as program counters; each event is one lock-protected region or one channel "
+                     "operation of srv_conn.go/srv_srv.go/srv_fcall.go; Go mutexes, channels (FIFO) and the scheduler are trusted; "
+                     "what a reply contains is M3's business (C04/C05/C12); the model allows nested Respond calls to interleave with "
+                     "their caller (a superset of the code's schedules)"],
+        "assumptions": ["G9.SrvLife mirrors Conn.recv/send/close, SrvReq.process/Respond/Flush and Srv.flush: every run logs the code's "
+                        "lock-protected regions from inside their locks and the Lean acceptor (G9.Driver.Life) must accept the log, comparing "
+                        "status bits, flush targets, nextreq/flushreqs and the take order with the model's state",
+                        "the implementation answers or flushes only requests it was handed (harness implementation does)"],
+    },
+    "C07": {
+        "rule": "Tflush against 6 target types at every stage: same segment, queued behind a same-tag predecessor, after the check, "
+                "inside the implementation (with/without FlushOp, honoured or not, asynchronous answers), parked at each respond.* point, "
+                "after the reply, unknown tag, flush of a flush, 2..3 flushes of one request, and pairwise orderings of 6 target x 7 "
+                "flusher schedule points in both directions. Oracle: one Rflush per Tflush; a reply to the target precedes it; a target "
+                "without reply never reaches the implementation afterwards and leaves no fid/open state (probes). "
+                "non-trivial = distinct scenarios",
+        "modelled": ["modelled, not verified: goroutines as program counters; each event is one lock-protected region or one channel "
+                     "operation of srv_conn.go/srv_srv.go/srv_fcall.go; Go mutexes, channels (FIFO) and the scheduler are trusted; "
+                     "what a reply contains is M3's business (C04/C05/C12); the model allows nested Respond calls to interleave with "
+                     "their caller (a superset of the code's schedules)"],
+        "assumptions": ["G9.SrvLife mirrors Conn.recv/send/close, SrvReq.process/Respond/Flush and Srv.flush: every run logs the code's "
+                        "lock-protected regions from inside their locks and the Lean acceptor (G9.Driver.Life) must accept the log, comparing "
+                        "status bits, flush targets, nextreq/flushreqs and the take order with the model's state",
+                        "the implementation answers or flushes only requests it was handed (harness implementation does)"],
+    },
+    "C08": {
+        "rule": "2..10 requests with 1..6 of them parked in the implementation on 1..2 connections, Maxpend in {0,1,8}: the others, a "
+                "late request and a request on the other connection must be answered while they stay parked; then every release "
+                "order. Shared-tag groups of 2..8 mixed with 0..3 other tags (gated, asynchronous or free-running): executed one at a "
+                "time in arrival order, answered in that order. non-trivial = distinct scenarios",
+        "modelled": ["modelled, not verified: goroutines as program counters; each event is one lock-protected region or one channel "
+                     "operation of srv_conn.go/srv_srv.go/srv_fcall.go; Go mutexes, channels (FIFO) and the scheduler are trusted; "
+                     "what a reply contains is M3's business (C04/C05/C12); the model allows nested Respond calls to interleave with "
+                     "their caller (a superset of the code's schedules)"] + ["modelled, not verified: 'never delays' is enabledness in the model; on the implementation it is observed "
+                     "with an 8 s limit that only tells blocked from slow"],
+        "assumptions": ["G9.SrvLife mirrors Conn.recv/send/close, SrvReq.process/Respond/Flush and Srv.flush: every run logs the code's "
+                        "lock-protected regions from inside their locks and the Lean acceptor (G9.Driver.Life) must accept the log, comparing "
+                        "status bits, flush targets, nextreq/flushreqs and the take order with the model's state",
+                        "the implementation answers or flushes only requests it was handed (harness implementation does)"],
+    },
+    "C11": {
+        "rule": "victim + bystander connection; 1..6 fids attached/walked/opened/created/clunked/removed; 0..4 requests (stat, walk, "
+                "clunk, open) parked in the implementation at the disconnect, optionally a partial frame before it; released in "
+                "every order afterwards. Oracle: ConnClosed once; every valid fid reported destroyed exactly once; goroutine census "
+                "(recv, send, process, Respond) back to the bystander's two; bystander still served and untouched. "
+                "non-trivial = distinct scenarios",
+        "modelled": ["modelled, not verified: goroutines as program counters; each event is one lock-protected region or one channel "
+                     "operation of srv_conn.go/srv_srv.go/srv_fcall.go; Go mutexes, channels (FIFO) and the scheduler are trusted; "
+                     "what a reply contains is M3's business (C04/C05/C12); the model allows nested Respond calls to interleave with "
+                     "their caller (a superset of the code's schedules)"] + ["modelled, not verified: ConnClosed/FidDestroy bookkeeping and the goroutine/descriptor census are "
+                     "observed on the implementation only"],
+        "assumptions": ["G9.SrvLife mirrors Conn.recv/send/close, SrvReq.process/Respond/Flush and Srv.flush: every run logs the code's "
+                        "lock-protected regions from inside their locks and the Lean acceptor (G9.Driver.Life) must accept the log, comparing "
+                        "status bits, flush targets, nextreq/flushreqs and the take order with the model's state",
+                        "the implementation answers or flushes only requests it was handed (harness implementation does)"],
+    },
 }
